@@ -36,7 +36,7 @@ def media(ct):
 class Integration:
     """one integration with its dispatcher; register(methods) -> post(path, body, content_type)"""
 
-    def __init__(self, kind, path, status_by_error=None, endpoint='', endpoint_mode='plain', target='endpoint'):
+    def __init__(self, kind, path, status_by_error=None, endpoint='', endpoint_mode='plain', target='endpoint', spec=None):
         """endpoint: '' = the integration's main endpoint, '/x' = an additional endpoint added with add_endpoint (aiohttp, flask)"""
         self.kind = kind
         self.path = path
@@ -44,6 +44,8 @@ class Integration:
         kw = {}
         if status_by_error is not None and not kind.startswith('werkzeug'):
             kw['status_by_error'] = status_by_error
+        if spec is not None:
+            kw['spec'] = spec
         if kind == 'aiohttp':
             self.rpc = ia.Application(path, **kw)
             self.dispatcher = self.rpc.dispatcher
@@ -108,7 +110,18 @@ class Integration:
             return Reply(r.status_code, media(r.headers.get('Content-Type')), r.get_data(), raw_content_type=r.headers.get('Content-Type'))
         return self._post_aiohttp(path, body, headers)
 
-    def _post_aiohttp(self, path, body, headers):
+    def get(self, path):
+        """GET a document served by the integration (specification endpoints)"""
+        self.ready()
+        if self.kind in ('flask', 'werkzeug', 'werkzeug-wsgi_app'):
+            try:
+                r = self.client.get(path)
+            except Exception as e:   # noqa
+                return Reply(None, None, b'', raised='%s: %s' % (type(e).__name__, e))
+            return Reply(r.status_code, media(r.headers.get('Content-Type')), r.get_data(), raw_content_type=r.headers.get('Content-Type'))
+        return self._post_aiohttp(path, b'', {}, method='GET')
+
+    def _post_aiohttp(self, path, body, headers, method='POST'):
         """the request is handled by the real aiohttp application and the response is WRITTEN through aiohttp's own
         prepare() / write_eof() into a recording payload writer: the reply is what reached the writer (a response object
         that was already sent once writes nothing again - exactly what happens on a real connection)"""
@@ -123,7 +136,7 @@ class Integration:
             writer = mock.Mock()
             for name in ('write_headers', 'write', 'write_eof', 'drain'):
                 setattr(writer, name, mock.AsyncMock())
-            req = make_mocked_request('POST', path, headers=headers, payload=payload, app=app, writer=writer)
+            req = make_mocked_request(method, path, headers=headers, payload=payload, app=app, writer=writer)
             try:
                 resp = await app._handle(req)
             except web.HTTPException as e:      # by aiohttp's contract a raised HTTPException is the response
